@@ -125,6 +125,11 @@ def judge_evaluable(rec, model, feats, rng, label="model", n_events=6, fast=True
         return None
     val = np.asarray(val) * np.ones(n_events)
     finite = np.isfinite(val).all()
+    if not finite and feats.get("subthreshold_resonance_with_energy_dependent_width"):
+        # closed channel at the pole mass: rho(m0^2) = sqrt(negative) is NaN in the real-dtype code (KF-C09's mechanism); the symbol
+        # closure that C01 states is judged by the post-condition, the numbers are not judged here
+        rec.note("not_finite:subthreshold_resonance_with_energy_dependent_width")
+        return None
     rec.check(bool(finite), "not_finite", f"{label}: intensity is not finite at regular phase-space points: {val[:3]}", {"values": val}, feats)
     if finite:
         rec.check(bool((np.abs(val.imag) <= 1e-9 * (1 + np.abs(val.real))).all() and (val.real >= -1e-9 * np.abs(val.real).max()).all()),
